@@ -144,6 +144,9 @@ def run(ctx, rep):
     r74(ctx, rep)
     r75(ctx, rep, br)
     r76(ctx, rep, m, br, members)
+    rep.rule("R7.7", "status 5 is issued exactly when the evaluation counter has reached maxfev: every budget test is `counter >= maxfev` on the truthful counter (shared with C05 R5.1)")
+    from .c05 import r51
+    r51(ctx, rep, rule="R7.7")
 
 
 def enum_members(ctx):
@@ -404,6 +407,11 @@ def check_raise_guards(ctx, rep, rule):
                 p = _cmp_parts(c)
                 if p:
                     l, op, r = p
+                    # the threshold must be the plain option value, not an
+                    # expression derived from it
+                    for side in (l, r):
+                        if mentions(side, "FEASIBILITY_TOL", "feasibility_tol", "TARGET", "target") and not _plain_option(side):
+                            bad_op = norm(c)
                     if mentions(r, "FEASIBILITY_TOL", "feasibility_tol") and not mentions(l, "FEASIBILITY_TOL", "feasibility_tol"):
                         if op == "<=":
                             has_tol = _is_maxcv_value(ctx, f, l, c)
@@ -435,10 +443,17 @@ def check_raise_guards(ctx, rep, rule):
                 what = "objective <= target and violation <= feasibility_tol" if cls == "TargetSuccess" else "feasibility problem and violation <= feasibility_tol"
                 rep.finding(rule, f, f"raise {cls} if {' and '.join(norm(c) for c in conj)}"[:200], node.lineno,
                             f"{cls} is raised under a guard that is not `{what}`"
-                            + (f" (operator in `{bad_op}`)" if bad_op else ""))
+                            + (f" (see `{bad_op}`)" if bad_op else ""))
     for cls, k in n.items():
         if k < 2:
             raise AnalysisError(f"only {k} raise sites of {cls} (floor 2: initial sampling and main loop)")
+
+
+def _plain_option(e):
+    """options[Options.X] / options["x"] / self._x / a bare name"""
+    if isinstance(e, ast.Subscript):
+        return isinstance(e.value, (ast.Name, ast.Attribute)) and not any(isinstance(x, ast.Call) for x in ast.walk(e))
+    return isinstance(e, (ast.Name, ast.Attribute))
 
 
 def _is_maxcv_value(ctx, f, e, at):
